@@ -83,6 +83,11 @@ Definition lit_int (z : Z) : plx := PLit (qn (inject_Z z)).       (* _build_lit(
 
 Definition fold1 (f : plx -> plx -> plx) (xs : list plx) : res plx :=
   match xs with [] => Unmodelled | x :: t => Ok (fold_left f t x) end.
+(* _missing_if_any_missing(args, res) = pl.when(pl.any_horizontal([a.is_null() for a in args])).then(None).otherwise(res):
+   maximum / minimum propagate a missing operand (repair 73dee51; max_horizontal / min_horizontal alone skip nulls) *)
+Definition any_null (xs : list plx) : plx :=
+  match xs with [] => PLit (VBool false) | x :: t => fold_left POr (map PIsNull t) (PIsNull x) end.
+Definition missing_if_any_missing (xs : list plx) (r : plx) : plx := PWhen (any_null xs) (PLit VNull) r.
 Definition count_expr (x : plx) : plx := PAgg ASum (PWhen (POr (PIsNull x) (PIsNan x)) (lit_int 0) (lit_int 1)).
 Definition int_lit_of (x : plx) : option Z :=
   match x with PLit (VNum q) => if Pos.eqb (Qden q) 1 then Some (Qnum q) else None | PLit (VInt z) => Some z | _ => None end.
@@ -104,7 +109,7 @@ Definition impl (ext : bool) (op : string) (xs : list plx) : res plx :=
       | "abs" => Ok (PAbs x)
       | "is_null" => Ok (PIsNull x)
       | "is_nan" => Ok (PIsNan x)
-      | "is_inf" => Ok (PIsInf x)
+      | "is_inf" => Ok (PCoalesce (PIsInf x) (PLit (VBool false)))        (* x.is_infinite().fill_null(False) *)
       | "is_bad" => Ok (POr (POr (PIsNull x) (PIsInf x)) (PIsNan x))
       | "coalesce0" => Ok (PCoalesce x (lit_int 0))
       | "sum" => Ok (PAgg ASum x) | "mean" => Ok (PAgg AMean x) | "min" => Ok (PAgg AMin x) | "max" => Ok (PAgg AMax x)
@@ -112,7 +117,8 @@ Definition impl (ext : bool) (op : string) (xs : list plx) : res plx :=
       | "size" => Ok (PAgg ASum (PCol one_col))
       | "shift" => Ok (PShift 1 x)
       | "cumsum" | "cummax" | "cummin" | "cumprod" | "cumcount" => Raise
-      | "*" | "and" | "&" | "or" | "|" | "maximum" | "minimum" | "fmax" | "fmin" | "coalesce" => Ok x
+      | "maximum" | "minimum" => Ok (missing_if_any_missing [x] x)
+      | "*" | "and" | "&" | "or" | "|" | "fmax" | "fmin" | "coalesce" => Ok x
       | _ => Unmodelled
       end
   | a :: b :: rest =>
@@ -128,8 +134,10 @@ Definition impl (ext : bool) (op : string) (xs : list plx) : res plx :=
       | "*", _ => fold1 PMul xs
       | "and", _ | "&", _ => fold1 PAnd xs
       | "or", _ | "|", _ => fold1 POr xs
-      | "maximum", _ | "fmax", _ => fold1 PMaxH xs
-      | "minimum", _ | "fmin", _ => fold1 PMinH xs
+      | "fmax", _ => fold1 PMaxH xs
+      | "fmin", _ => fold1 PMinH xs
+      | "maximum", _ => rbind (fold1 PMaxH xs) (fun r => Ok (missing_if_any_missing xs r))
+      | "minimum", _ => rbind (fold1 PMinH xs) (fun r => Ok (missing_if_any_missing xs r))
       | "coalesce", _ => fold1 PCoalesce xs
       | _, _ => Unmodelled
       end
@@ -416,10 +424,9 @@ Definition agg_vocab (e : expr) : bool :=
   | _ => false
   end.
 
-(* null-sensitive methods: the three families of known findings *)
+(* null-sensitive methods: the two families of known findings *)
 Definition is_cmp_op (op : string) : bool := mem op ["=="; "!="; "<"; "<="; ">"; ">="].
 Definition is_logic_op (op : string) : bool := mem op ["and"; "or"].
-Definition is_minmax_op (op : string) : bool := mem op ["maximum"; "minimum"].
 (* no operand of a method selected by `sens` evaluates to null on row r (Pandas-flavoured evaluation) *)
 Fixpoint expr_nulls_ok (sens : string -> bool) (cs : list string) (r : list val) (e : expr) : bool :=
   match e with
@@ -463,7 +470,7 @@ Fixpoint keys_distinct (cs : list string) (ks : list string) (rs : list (list va
 Definition agg_of (e : expr) : string := match e with EOp op _ => op | _ => "" end.
 
 (* one guard component per cause; each returns true when the pipeline is outside that cause *)
-Inductive cause := CVocab | CReserved | CCmpNull | CLogicNull | CMinMaxNull | CNullJoinKey | CJoinKeyNames | CJoinKeyRepr
+Inductive cause := CVocab | CReserved | CCmpNull | CLogicNull | CNullJoinKey | CJoinKeyNames | CJoinKeyRepr
                  | CSortNulls | CSortTies | CEmptyProject | CGroupKeyRepr.
 
 Definition names_of_step (p : op) : list string :=
@@ -491,10 +498,8 @@ Definition step_guard (c : cause) (p : op) (srcs : list table) : bool :=
   | CReserved, _, _ => negb (existsb is_reserved (names_of_step p))
   | CCmpNull, OExtend _ ops false _, [t] => rows_nulls_ok is_cmp_op t (map snd ops)
   | CLogicNull, OExtend _ ops false _, [t] => rows_nulls_ok is_logic_op t (map snd ops)
-  | CMinMaxNull, OExtend _ ops false _, [t] => rows_nulls_ok is_minmax_op t (map snd ops)
   | CCmpNull, OSelectRows _ x, [t] => filter_rows_ok is_cmp_op t x
   | CLogicNull, OSelectRows _ x, [t] => filter_rows_ok is_logic_op t x
-  | CMinMaxNull, OSelectRows _ x, [t] => filter_rows_ok is_minmax_op t x
   | CNullJoinKey, OJoin _ _ on_a on_b _, [ta; tb] =>
       negb (existsb (fun ra => existsb is_null (key_of (cols ta) on_a ra) &&
                                existsb (fun rb => keys_eqv (key_of (cols ta) on_a ra) (key_of (cols tb) on_b rb)) (rows tb)) (rows ta))
@@ -518,7 +523,7 @@ Definition step_guard (c : cause) (p : op) (srcs : list table) : bool :=
   end.
 
 Definition all_causes : list cause :=
-  [CVocab; CReserved; CCmpNull; CLogicNull; CMinMaxNull; CNullJoinKey; CJoinKeyNames; CJoinKeyRepr; CSortNulls; CSortTies; CEmptyProject; CGroupKeyRepr].
+  [CVocab; CReserved; CCmpNull; CLogicNull; CNullJoinKey; CJoinKeyNames; CJoinKeyRepr; CSortNulls; CSortTies; CEmptyProject; CGroupKeyRepr].
 
 Definition sources_of (p : op) : list op :=
   match p with
